@@ -43,6 +43,7 @@ def check(run):
 
     # ------------------------------------------------------------------ abstract runs: records by AST node
     idx_by, unp_by, div_by, conv_by, none_by = {}, {}, {}, {}, {}
+    idx_interp = {}
     visited = set()
     analysed_fns = set()
     interps = []
@@ -63,6 +64,7 @@ def check(run):
         visited |= interp.visited
         for rec in interp.index_uses:
             idx_by.setdefault(id(rec[1]), []).append(rec)
+            idx_interp[id(rec)] = interp
         for rec in interp.unpack_uses:
             unp_by.setdefault(id(rec[1]), []).append(rec)
         for rec in interp.div_uses:
@@ -77,6 +79,9 @@ def check(run):
     reviewed = build_reviewed(run, prog)
 
     EA = exc.ExcAnalysis(prog, F, edges)
+
+    def r_interp(rec):
+        return idx_interp.get(id(rec))
 
     def lang_of(av, ip):
         """regex language (DFA) of a bytes/str value that is a match group (possibly decoded); None if unknown"""
@@ -101,7 +106,8 @@ def check(run):
             return auto
         for (rfq, rkind, rsrc), (reason, cond) in reviewed.items():
             src_ = common.short_src(n, 200)
-            if rfq == fi.fq and rkind == c.kind and (rsrc == src_ or (rkind != "subscript" and rsrc in src_)):
+            fq_ok = rfq == fi.fq or (rfq.endswith(".*") and fi.fq.startswith(rfq[:-1]))
+            if fq_ok and rkind == c.kind and (rsrc == src_ or (rkind != "subscript" and rsrc in src_)):
                 ok, why = cond()
                 if ok:
                     run.exempt(f"C01/R1-exception-escape/{c.key()}/{e}", reason, why)
@@ -114,6 +120,23 @@ def check(run):
             recs = idx_by.get(id(n), [])
             if recs and all(_index_safe(r) for r in recs):
                 return f"index bounds from the abstract interpreter ({len(recs)} path record(s))"
+            # lookup in a module-level constant dict with a key that is a regex group: every text the group admits is a key
+            if recs and isinstance(n.value, (ast.Name, ast.Dict)):
+                try:
+                    table = prog.const(fi.module, n.value.id) if isinstance(n.value, ast.Name) else prog.try_fold(fi.module, n.value)
+                except Exception:   # noqa: BLE001
+                    table = None
+                if isinstance(table, dict) and table:
+                    from .. import strlang
+                    all_in = True
+                    for r in recs:
+                        iv = r[3]
+                        d_ = strlang.language(iv.term, r_interp(r).matches, r_interp(r).piece_sep) if isinstance(iv, (BytesV, StrV)) and r_interp(r) is not None else None
+                        words = rx.enumerate_words(d_, limit=64) if d_ is not None and rx.maxlen(d_) is not None else None
+                        if words is None or not all(w_ in table for w_ in words):
+                            all_in = False
+                    if all_in:
+                        return "every text the key's regex group admits is a key of the constant table"
             # constant-key lookup guarded by a membership test / first element guarded by truthiness
             pc = _pc_with_ifexp(fi, n)
             if pc is not None:
@@ -363,8 +386,72 @@ def check(run):
                f"{fq.rsplit('.', 1)[-1]} recurses once per tree level, so the height of the trees scan() builds must be bounded by the depth budget "
                "(or by a bound on the context stack)", "" if (bounded or not ctx_push) else why_unbounded, mech="T6 recursion x frame analysis of the context arm")
     run.note("recursive_views", n_views)
+
+    # ------------------------------------------------------------------ R4 enumeration bound: a recursion that branches (the recursive
+    # call sits in a loop over a collection taken from its argument) makes as many calls as the PRODUCT of the collection sizes;
+    # it terminates (R2) but not in feasible time unless every outside caller bounds that product first.
+    n_branch = 0
+    for fi in sorted(F, key=lambda f: f.fq):
+        if isinstance(fi.node, ast.Lambda):
+            continue
+        rec_in_loop = []
+        for c_ in own_nodes(fi.node):
+            if isinstance(c_, ast.Call) and prog.callee(fi.module, fi, c_).func is fi:
+                # the product arises when every branch re-enters with the SAME collection (forwarded parameter) one level further;
+                # a descent into the loop's own element (a child subtree) visits each element once and is linear
+                fwd = {a.id for a in c_.args if isinstance(a, ast.Name) and a.id in fi.params}
+                for p_ in common.parents(c_):
+                    its_ = [p_.iter] if isinstance(p_, ast.For) else ([g_.iter for g_ in p_.generators] if isinstance(p_, (ast.ListComp, ast.GeneratorExp)) else [])
+                    if any(isinstance(x, ast.Name) and x.id in fwd for it_ in its_ for x in ast.walk(it_)):
+                        rec_in_loop.append(c_)
+                        break
+        if not rec_in_loop:
+            continue
+        # the parameter whose elements are iterated
+        callers = [(g, c_) for g in F if g is not fi and not isinstance(g.node, ast.Lambda) for c_ in own_nodes(g.node)
+                   if isinstance(c_, ast.Call) and prog.callee(g.module, g, c_).func is fi]
+        for g, call in callers:
+            n_branch += 1
+            ok, why = _product_bounded(g, call)
+            run.ob("R4-enumeration-bound", f"{fi.fq}/called-from/{g.fq}", ok, f"{g.module.rel}:{call.lineno}",
+                   f"{fi.qualname} makes one recursive call per element at every level (the product of the collection sizes): its caller bounds that "
+                   "product before calling it", why, mech="branching-recursion census + dominating product guard in the caller")
+    run.note("branching_recursions_called", n_branch)
     # depth-limited recursion of scan_node is C07's (imported as a floor: the check is re-run there)
     run.assume("scan_node's recursion terminates by the depth guard (decided under C07 R1/R2) ")
+
+
+def _product_bounded(g, call):
+    """the caller multiplies the sizes of the argument's elements into an accumulator and, when that exceeds a constant, shrinks
+    the argument (slices of constant length) or leaves, before the call"""
+    if not call.args or not isinstance(call.args[0], ast.Name):
+        return False, f"`{common.short_src(call, 60)}`: the enumerated collection is not a plain variable"
+    ARG = call.args[0].id
+    body = g.node.body
+    stmt = common.enclosing_stmt(call)
+    if stmt not in body:
+        return False, "the call is not at the top level of its function"
+    pre = body[: body.index(stmt)]
+    accs = set()
+    for st in pre:
+        if isinstance(st, ast.For) and common.is_name(st.iter, ARG) and isinstance(st.target, ast.Name):
+            for x in ast.walk(st):
+                if isinstance(x, ast.AugAssign) and isinstance(x.op, ast.Mult) and isinstance(x.target, ast.Name) and \
+                        norm_src(x.value) == f"len({st.target.id})":
+                    accs.add(x.target.id)
+    for st in pre:
+        if isinstance(st, ast.If) and isinstance(st.test, ast.Compare) and len(st.test.ops) == 1 and isinstance(st.test.ops[0], (ast.Gt, ast.GtE)) and \
+                isinstance(st.test.left, ast.Name) and st.test.left.id in accs and not st.orelse:
+            last = st.body[-1] if st.body else None
+            if isinstance(last, (ast.Return, ast.Raise)):
+                return True, ""
+            if isinstance(last, ast.Assign) and common.is_name(last.targets[0], ARG) and isinstance(last.value, ast.ListComp) and \
+                    isinstance(last.value.elt, ast.Subscript) and isinstance(last.value.elt.slice, ast.Slice) and last.value.elt.slice.lower is None and \
+                    isinstance(last.value.elt.slice.upper, ast.Constant) and last.value.elt.slice.upper.value == 1 and \
+                    common.is_name(last.value.generators[0].iter, ARG):
+                return True, ""
+    return False, (f"nothing bounds the product of the sizes of `{ARG}`'s elements before the call: on low-entropy data every byte value ties and "
+                   "the enumeration is exponential in the key length (a 520-element counting byte array asked for 2**32 keys)")
 
 
 def _origin(c, e, escapes):
@@ -439,7 +526,9 @@ def build_reviewed(run, prog):
     def ps_two_parts():
         fp = prog.fn("decoders.shell.find_powershell_strings")
         src = [norm_src(s) for s in own_nodes(fp.node) if isinstance(s, ast.stmt)]
-        ok = any("rsplit(maxsplit=1)" in s for s in src) and any(s.startswith("if len(parts) != 2:") for s in src)
+        import re as _re
+        ok = any(_re.search(r"\.rsplit\((maxsplit=1|None, 1|None, maxsplit=1|sep=None, maxsplit=1)\)", s) for s in src) and \
+            any(_re.match(r"if len\(\w+\) != 2:", s) for s in src)
         return ok, "the invocation is the first of exactly two whitespace-separated parts, hence contains a non-space byte; replacing '/' by ' -' keeps one"
     out[("decoders.shell.find_powershell_strings", "subscript", "args[0]")] = ("the invocation before the encoded argument is not blank", ps_two_parts)
 
@@ -462,8 +551,21 @@ def build_reviewed(run, prog):
     for kind, frag in (("ext", "bytes("),):
         out[("decoders.xml.unescape_xml", kind, frag)] = ("the tokens are exactly the references of XML_ESCAPE_RE: decimal 0-255 or x + two hex digits",
                                                         c14_lemma({"R1-xml", "R2-xml-tokens"}))
-    out[("decoders.codec.find_utf16", "method", ".decode('utf-16')")] = ("every match is a sequence of (byte, NUL) pairs: valid UTF-16LE without surrogates or BOM",
-                                                                          c14_lemma({"R6-utf16"}))
+    def utf16_only_matches():
+        # every .decode('utf-16') in the codec module is applied to group 0 of a UTF16_RE match (through whatever helper)
+        from .. import sites as _sites
+        cm_ = prog.mod("decoders.codec")
+        pat = prog.const(cm_, "UTF16_RE")
+        _h, ip, _n = _sites.analysis(prog).run(prog.fn("decoders.codec.find_utf16"))
+        recs = [r for r in ip.conv_uses if r[2] == "decode"]
+        ok = bool(recs)
+        for r in recs:
+            t = getattr(r[3][0], "term", None)
+            ok = ok and isinstance(t, tuple) and t[:1] == ("group",) and t[2] == 0 and ip.matches.get(t[1], {}).get("pattern") == pat
+        ok2, why = c14_lemma({"R6-utf16"})()
+        return ok and ok2, "every decode('utf-16') receives group 0 of a UTF16_RE match; " + why
+    out[("decoders.codec.*", "method", ".decode('utf-16')")] = ("every match is a sequence of (byte, NUL) pairs: valid UTF-16LE without surrogates or BOM",
+                                                                utf16_only_matches)
 
     def c10_dom(key_sub):
         def cond():
